@@ -476,6 +476,32 @@ def _ftype_own_rules(chk, eff, sym):
                 tags = {t for t in recv[0] if isinstance(t, tuple)}
                 if tags and all(t[1] in ("node", "nd") and t[2] >= 1 for t in tags) and cls in ("Cache",):
                     owned = True
+                # the same in a per-verb handler the cache code was split into: the parameter is declared to be a verb node
+                def _verb_param(pname, _fn=fn):
+                    fnode = _fn.node
+                    while fnode is not None:
+                        a_ = getattr(fnode, "args", None)
+                        for x in (a_.args + a_.kwonlyargs) if a_ is not None else []:
+                            if x.arg == pname:
+                                ann = norm(x.annotation) if x.annotation is not None else ""
+                                last = ann.strip("'\"").split(".")[-1].split("|")[0].strip()
+                                return last in verb_names or last == "Verb" or (pname in ("node", "nd") and _fn.module.name.endswith("pipe.cache"))
+                        from ..source import enclosing_function as _ef
+
+                        fnode = _ef(fnode)
+                    return False
+
+                if tags and not owned and all(t[0] == "P" and t[2] >= 1 and _verb_param(t[1]) for t in tags):
+                    owned = True
+                # a lambda mapped over fields of the verb node (`starmap(lambda name, val, uid: .., zip(node.names, node.values, ..))`)
+                if not owned and isinstance(fn.node, ast.Lambda):
+                    from ..source import parent as _parent
+
+                    call_ = _parent(fn.node)
+                    if isinstance(call_, ast.Call) and fn.node in call_.args:
+                        roots = {x.id for a_ in call_.args if a_ is not fn.node for x in ast.walk(a_) if isinstance(x, ast.Name) and isinstance(x.ctx, ast.Load)}
+                        roots -= {"zip", "map", "enumerate", "itertools", "reversed", "list", "tuple", "True", "False"}
+                        owned = bool(roots) and all(_verb_param(r_) for r_ in roots)
                 # Col objects never memoise (ColExpr.ftype has no write): receivers guarded by isinstance(.., Col)
                 from ..flow import dominating_tests
 
